@@ -10,5 +10,5 @@ def rule(rule_id, doc):
 
 
 def load_all():
-    from . import election, raftlog, callbacks, membership, raftmisc, storage, snapshot, wire, batteries, versions, ownership  # noqa
+    from . import election, raftlog, callbacks, membership, raftmisc, storage, snapshot, wire, batteries, versions, ownership, lints  # noqa
     return REGISTRY
